@@ -7,6 +7,7 @@ import (
 	"io"
 	"math/rand"
 	"os"
+	"reflect"
 	"runtime/debug"
 	"strconv"
 	"strings"
@@ -210,17 +211,9 @@ func isNilAny(v any) bool {
 	if v == nil {
 		return true
 	}
-	switch x := v.(type) {
-	case *jsValue:
-		return x == nil
-	case *exExpr:
-		return x == nil
-	case *iniFile:
-		return x == nil
-	case *ipString:
-		return x == nil
-	}
-	return false
+	// (a typed nil pointer inside the interface value is a nil AST too, whatever the grammar type)
+	rv := reflect.ValueOf(v)
+	return rv.Kind() == reflect.Ptr && rv.IsNil()
 }
 
 func posCheck(pe participle.Error, err error, in string) string {
